@@ -40,7 +40,21 @@ def run (j : Json) : Except String Json := do
     | .struct c fields defaults => pure (c, fields, defaults)
     | _ => throw "schema: cls is not a class"
   let collapsed := collapses c (fields.map (·.1))
-  let (mSchema, mDefs) := toSchema cls
+  -- string-valued key map of a top-level `_serialization_mapper` (absent: mapper-free class)
+  let km : Option KeyMap ← match optField j "km" with
+    | none => pure none
+    | some x => do
+      let ps ← (← x.getArr?).toList.mapM fun t => do
+        let a ← t.getArr?
+        pure ((← a[0]!.getStr?), (← a[1]!.getStr?))
+      pure (some ps)
+  let mDefs := (toSchema cls).2
+  let mSchema := match km with
+    | some m => classSchemaM false m cls
+    | none => (toSchema cls).1
+  let mSchemaFx := match km with
+    | some m => classSchemaM true m cls
+    | none => classSchema true cls
   let mRaises := raisesP fields
   let D := fixedPtrDefs cls
   let mut out : List (String × Json) := [
@@ -54,7 +68,7 @@ def run (j : Json) : Except String Json := do
   if !mRaises then
     out := out ++ [("schema", valToJson mSchema), ("defs", valToJson (defsToVal mDefs)),
                    ("wfModel", Json.bool (wfDocument (dialectFix mSchema) (fixDefs mDefs))),
-                   ("fixAgrees", Json.bool (structEq (dialectFix mSchema) (classSchema true cls)))]
+                   ("fixAgrees", Json.bool (structEq (dialectFix mSchema) mSchemaFx))]
   -- the real code's schema, judged by the Lean predicates
   let impl : Option (PyVal × Defs) ← match optField j "implSchema" with
     | none => pure none
@@ -75,8 +89,14 @@ def run (j : Json) : Except String Json := do
             | some v => Typedpy.ser O f v
             | none => .error (.other "AttributeError"))
          | _, _ => .error (.other "not-an-instance"))
-      else serialize O cls x
+      else (match km, serialize O cls x with
+        | some m, .ok d => .ok (renameDoc m d)
+        | _, other => other)
+    let safe := match km, serialize O cls x with
+      | some m, .ok d => renameSafe m cls d
+      | _, _ => true
     let mut r : List (String × Json) := [
+      ("renameSafe", Json.bool safe),
       ("ser", resToJson ser),
       ("wellFormed", Json.bool (wellFormed O cls x)),
       ("inRegion", Json.bool (inAdmitRegion O cls x))]
